@@ -150,7 +150,7 @@ func referee(body []gen.Stmt, base, v result) string {
 }
 
 // features is the coarse feature set of a base body (signature vocabulary:
-// plain | closure | recursion | nested, +selassign). Kept this small so that one
+// plain | closure | recursion | nested, +selassign, +fnvalue). Kept this small so that one
 // root cause gives a handful of signatures.
 func features(body []gen.Stmt) (string, map[string]bool) {
 	set := map[string]bool{}
@@ -164,6 +164,10 @@ func features(body []gen.Stmt) (string, map[string]bool) {
 				}
 				ws(f.Body, fdepth+1)
 				return false
+			}
+			// a function variable mentioned other than as the callee of a call: copied, stored or passed
+			if id, ok := x.(*gen.Ident); ok && role == "value" && (id.Name == "f" || id.Name == "g" || id.Name == "h") {
+				set["fnvalue"] = true
 			}
 			return true
 		})
@@ -213,6 +217,9 @@ func features(body []gen.Stmt) (string, map[string]bool) {
 	}
 	if set["selassign"] {
 		ks = append(ks, "selassign")
+	}
+	if set["fnvalue"] {
+		ks = append(ks, "fnvalue")
 	}
 	if len(ks) == 0 {
 		return "plain", set
@@ -391,7 +398,7 @@ func main() {
 		Validated:   nValidated,
 		Evaluations: nVariants,
 		Nontrivial:  nontrivial.Len(),
-		Rule:        "every body of the C11 family (<= budget statements over a, b, c, m, arr with :=, =, op=, ++/--, selector/index assignment, if/else, for, for-in, closures bound to f/g with parameter, nested closure, bounded recursion, out-of-scope reference) x the complete variant set (T1, T1d, T2, T3 every single expression/statement position and all at once on T0/T1/T4b, all at once on T2/T4a, T4a, T4b, T5s, T5l); state = distinct base program text; transition = one compile+run of a base or variant program; validated = variants compared with their base; non-trivial = distinct base programs that contain a function literal or a selector/index assignment and run to completion at top level",
+		Rule:        "every body of the C11 family (<= budget statements over a, b, c, m, arr with :=, =, op=, ++/--, selector/index assignment, if/else, for, for-in, closures bound to f/g with parameter, nested closure, closure returned from a function, writing closure copied with copy() / stored in a container / passed as an argument, bounded recursion, out-of-scope reference) x the complete variant set (T1, T1d, T2, T3 every single expression/statement position and all at once on T0/T1/T4b, all at once on T2/T4a, T4a, T4b, T5s, T5l); state = distinct base program text; transition = one compile+run of a base or variant program; validated = variants compared with their base; non-trivial = distinct base programs that contain a function literal or a selector/index assignment and run to completion at top level",
 	})
 }
 
